@@ -1,0 +1,82 @@
+// SPDX-FileCopyrightText: 2022-present Intel Corporation
+//
+// SPDX-License-Identifier: Apache-2.0
+
+//go:build verif
+
+// Contracts for the deductive verifier in /verif (govc). Comment-only: this file contains no code
+// and is excluded from every build that does not set the "verif" tag.
+
+package configuration
+
+//@ import configapi "github.com/onosproject/onos-api/go/onos/config/v2"
+//@ import errors "github.com/onosproject/onos-lib-go/pkg/errors"
+
+// Ghost snapshot of the record as it was read (Get) or last written: the write guards compare
+// the record handed to Update/UpdateStatus with the state it was computed from.
+//@ ghost configapi.Configuration.snapIndex int
+//@ ghost configapi.Configuration.snapProposed int
+//@ ghost configapi.Configuration.snapCommitted int
+//@ ghost configapi.Configuration.snapApplied int
+//@ ghost configapi.Configuration.snapTerm int
+//@ ghost configapi.Configuration.snapAppliedTerm int
+//@ ghost configapi.Configuration.snapState int
+//@ ghost configapi.Configuration.snapMaster string
+//@ ghost configapi.Configuration.snapValues int
+//@ ghost configapi.Configuration.snapAppliedValues int
+//@ ghost configapi.Configuration.snapValuesDom map[string]bool
+//@ ghost configapi.Configuration.snapValuesVal map[string]int
+//@ ghost configapi.Configuration.snapAppliedDom map[string]bool
+//@ ghost configapi.Configuration.snapAppliedVal map[string]int
+//@ ghost configapi.Configuration.tracked bool
+
+// Ghost view of the persisted record (what a crash would leave behind).
+//@ ghost storedCfgCommitted int
+//@ ghost storedCfgApplied int
+//@ ghost cfgStatusWrites int
+//@ ghost cfgValueWrites int
+//@ ghost cfgCreates int
+
+//@ spec cfgSnapshotted(c *configapi.Configuration) bool = c.tracked && c.snapIndex == c.Index && c.snapProposed == c.Status.Proposed.Index && c.snapCommitted == c.Status.Committed.Index && c.snapApplied == c.Status.Applied.Index && c.snapTerm == c.Status.Mastership.Term && c.snapAppliedTerm == c.Status.Applied.Mastership.Term && c.snapState == c.Status.State && c.snapMaster == c.Status.Mastership.Master && c.snapValues == c.Values && c.snapAppliedValues == c.Status.Applied.Values && c.snapValuesDom == domOf(c.Values) && c.snapValuesVal == valsOf(c.Values) && c.snapAppliedDom == domOf(c.Status.Applied.Values) && c.snapAppliedVal == valsOf(c.Status.Applied.Values)
+
+//@ spec cfgIndexesMonotone(c *configapi.Configuration) bool = c.Status.Proposed.Index >= c.snapProposed && c.Status.Committed.Index >= c.snapCommitted && c.Status.Applied.Index >= c.snapApplied
+
+//@ iface Store.Get(ctx, id) (result, err)
+//@   modifies storedCfgCommitted, storedCfgApplied
+//@   ensures err != nil ==> result == nil && storedCfgCommitted == old(storedCfgCommitted) && storedCfgApplied == old(storedCfgApplied)
+//@   ensures err == nil ==> result != nil && fresh(result) && cfgSnapshotted(result)
+//@   ensures err == nil ==> (result.Values == nil || fresh(result.Values)) && (result.Status.Applied.Values == nil || fresh(result.Status.Applied.Values))
+//@   ensures err == nil ==> storedCfgCommitted == result.Status.Committed.Index && storedCfgApplied == result.Status.Applied.Index
+//@   ensures err == nil ==> result.Status.Applied.Mastership.Term <= result.Status.Mastership.Term
+
+//@ iface Store.Create(ctx, configuration) (err)
+//@   requires configuration != nil
+//@   modifies configuration.ObjectMeta, cfgCreates
+//@   ensures cfgCreates == old(cfgCreates) + 1
+
+//@ iface Store.UpdateStatus(ctx, configuration) (err)
+//@   requires configuration != nil
+//@   guard {C01,C02,C07} cfg.read-before-write: configuration.tracked
+//@   guard {C01,C02,C07} cfg.proposed-index-monotone: configuration.Status.Proposed.Index >= configuration.snapProposed
+//@   guard {C01,C02,C07} cfg.committed-index-monotone: configuration.Status.Committed.Index >= configuration.snapCommitted
+//@   guard {C01,C02,C07} cfg.applied-index-monotone: configuration.Status.Applied.Index >= configuration.snapApplied
+//@   guard {C10} cfg.term-monotone: configuration.Status.Mastership.Term >= configuration.snapTerm && configuration.Status.Applied.Mastership.Term >= configuration.snapAppliedTerm
+//@   guard {C10} cfg.applied-term-le-term: configuration.Status.Applied.Mastership.Term <= configuration.Status.Mastership.Term
+//@   guard {C01,C07} cfg.status-write-keeps-values: configuration.Index == configuration.snapIndex && configuration.Values == configuration.snapValues && domOf(configuration.Values) == configuration.snapValuesDom && valsOf(configuration.Values) == configuration.snapValuesVal
+//@   modifies configuration.ObjectMeta, configuration.tracked, configuration.snapIndex, configuration.snapProposed, configuration.snapCommitted, configuration.snapApplied, configuration.snapTerm, configuration.snapAppliedTerm, configuration.snapState, configuration.snapMaster, configuration.snapValues, configuration.snapAppliedValues, configuration.snapValuesDom, configuration.snapValuesVal, configuration.snapAppliedDom, configuration.snapAppliedVal, storedCfgCommitted, storedCfgApplied, cfgStatusWrites
+//@   ensures cfgStatusWrites == old(cfgStatusWrites) + 1
+//@   ensures err == nil ==> cfgSnapshotted(configuration) && storedCfgCommitted == configuration.Status.Committed.Index && storedCfgApplied == configuration.Status.Applied.Index
+//@   ensures err != nil ==> !configuration.tracked && storedCfgCommitted == old(storedCfgCommitted) && storedCfgApplied == old(storedCfgApplied)
+
+//@ iface Store.Update(ctx, configuration) (err)
+//@   requires configuration != nil
+//@   guard {C01,C02,C07} cfg.read-before-write: configuration.tracked
+//@   guard {C01,C02,C07} cfg.proposed-index-monotone: configuration.Status.Proposed.Index >= configuration.snapProposed
+//@   guard {C01,C02,C07} cfg.committed-index-monotone: configuration.Status.Committed.Index >= configuration.snapCommitted
+//@   guard {C01,C02,C07} cfg.applied-index-monotone: configuration.Status.Applied.Index >= configuration.snapApplied
+//@   guard {C02,C07} cfg.values-write-advances-committed: configuration.Status.Committed.Index > configuration.snapCommitted
+//@   guard {C10} cfg.term-monotone: configuration.Status.Mastership.Term >= configuration.snapTerm && configuration.Status.Applied.Mastership.Term >= configuration.snapAppliedTerm
+//@   modifies configuration.ObjectMeta, configuration.tracked, configuration.snapIndex, configuration.snapProposed, configuration.snapCommitted, configuration.snapApplied, configuration.snapTerm, configuration.snapAppliedTerm, configuration.snapState, configuration.snapMaster, configuration.snapValues, configuration.snapAppliedValues, configuration.snapValuesDom, configuration.snapValuesVal, configuration.snapAppliedDom, configuration.snapAppliedVal, storedCfgCommitted, storedCfgApplied, cfgValueWrites
+//@   ensures cfgValueWrites == old(cfgValueWrites) + 1
+//@   ensures err == nil ==> cfgSnapshotted(configuration) && storedCfgCommitted == configuration.Status.Committed.Index && storedCfgApplied == configuration.Status.Applied.Index
+//@   ensures err != nil ==> !configuration.tracked && storedCfgCommitted == old(storedCfgCommitted) && storedCfgApplied == old(storedCfgApplied)
